@@ -219,7 +219,10 @@ def run(args):
     for t in range(ntf):
         k = int(rng.integers(1, 5))
         parts = [make(str(rng.choice(["sig", "sp", "nsp", "aff"])), rng) for _ in range(k)]
-        names = [f"p{j}" for j in range(k)]
+        # the list layout of `get_parameters()`: one dict per make_trainable call — the SAME parameter name may occur in several entries
+        # (e.g. "radius" made trainable on two different selections) with different transforms; entries are paired by position
+        names = [f"p{j}" for j in range(k)] if t % 2 == 0 else [str(rng.choice(["radius", "HH_gNa"])) for _ in range(k)]
+        R.count("paramtransform:" + ("duplicate-names" if len(set(names)) < k else "unique-names"))
         params = [{nm: jnp.asarray(rng.uniform(-3, 3, int(rng.integers(1, 4))))} for nm in names]
         pt = jt.ParamTransform([{nm: p[0]} for nm, p in zip(names, parts)])
         fw = pt.forward(params)
